@@ -263,14 +263,14 @@ def q2(run, project):
     # state: (child status, parent status, flag value)
     viol = []
     seen = set()
-    work = [(cfg.entry, ("NONE", "HELD", None, None))]
+    work = [(cfg.entry, ("NONE", "HELD", None, None, "ANY"))]
     bufvars = set()
     while work:
         node, st = work.pop()
         if (node.id, st) in seen:
             continue
         seen.add((node.id, st))
-        ch, pa, fl, carry = st
+        ch, pa, fl, carry, kind_ = st
         if node is cfg.exit:
             if ch == "HELD":
                 viol.append((node, "a pulled event is still held when the function returns (dropped)", None))
@@ -291,6 +291,13 @@ def q2(run, project):
                 if flag and norm(tt) == flag and fl is not None:
                     if (fl != neg) != outcome:
                         continue
+                if isinstance(tt, ast.Call) and call_name(tt) == "isinstance" and len(tt.args) == 2 and norm(tt.args[0]) == var \
+                        and norm(tt.args[1]) == "MarshalEvent":
+                    is_elem = outcome != neg
+                    if kind_ != "ANY" and (kind_ == "ELEM") != is_elem:
+                        continue  # decided earlier on this path
+                    work.append((s, (ch, pa, fl, carry, "ELEM" if is_elem else "OTHER")))
+                    continue
                 work.append((s, st))
             continue
         if node.kind == "for" and node in for_pulls:
@@ -298,7 +305,7 @@ def q2(run, project):
                 if lab == "iter":
                     if ch == "HELD":
                         viol.append((node, f"`{var}` is overwritten by the next pulled event before it was shown (event dropped)", node.ast))
-                    work.append((s, ("HELD", pa, fl, carry)))
+                    work.append((s, ("HELD", pa, fl, carry, "ANY")))
                 else:
                     # exhausted: the loop variable keeps the last event it was bound to
                     work.append((s, st))
@@ -315,14 +322,17 @@ def q2(run, project):
                     viol.append((node, f"`{var}` is overwritten by the next pulled event before it was shown (event dropped)", a))
                 # normal edge: HELD; exception edge (StopIteration): unchanged
                 for lab, s in node.succ:
-                    work.append((s, ("HELD", pa, fl, carry)))
+                    work.append((s, ("HELD", pa, fl, carry, "ANY")))
                 for h in cfg.handlers_of(node):
-                    work.append((h, (ch if ch != "HELD" else "DISPOSED", pa, fl, carry)))
+                    work.append((h, (ch if ch != "HELD" else "DISPOSED", pa, fl, carry, kind_)))
                 continue
             if isinstance(a.value, ast.Constant) and a.value.value is None:
-                nst = ("NONE", pa, fl, carry)
+                nst = ("NONE", pa, fl, carry, kind_)
         elif isinstance(a, ast.Assign) and flag and norm(a.targets[0]) == flag and isinstance(a.value, ast.Constant):
-            nst = (ch, pa, a.value.value, carry)
+            if a.value.value is False and kind_ != "ELEM":
+                viol.append((node, f"the list is marked as having element rows (`{flag} = False`) by an event that is not known to be a "
+                             "list element (e.g. a warning): an empty list followed by a warning then loses its own row", a))
+            nst = (ch, pa, a.value.value, carry, kind_)
         elif isinstance(a, ast.Assign) and len(a.targets) == 1 and isinstance(a.targets[0], ast.Name) and a.targets[0].id != var \
                 and isinstance(a.value, ast.Name) and a.value.id == var:
             # the held event moves to another name, which has to be handed back
@@ -330,11 +340,11 @@ def q2(run, project):
                 viol.append((node, f"`{var}` is kept for handing back although it was already shown", a))
             if carry is not None:
                 viol.append((node, f"the event moved to `{carry}` is overwritten (dropped)", a))
-            nst = ("DISPOSED" if ch == "HELD" else ch, pa, fl, a.targets[0].id if ch == "HELD" else carry)
+            nst = ("DISPOSED" if ch == "HELD" else ch, pa, fl, a.targets[0].id if ch == "HELD" else carry, kind_)
         elif isinstance(a, ast.Assign) and len(a.targets) == 1 and isinstance(a.targets[0], ast.Name) and carry is not None \
                 and a.targets[0].id == carry:
             viol.append((node, f"the event moved to `{carry}` is overwritten (dropped)", a))
-            nst = (ch, pa, fl, None)
+            nst = (ch, pa, fl, None, kind_)
         else:
             k = disposal(a, var)
             if k:
@@ -342,12 +352,12 @@ def q2(run, project):
                     viol.append((node, f"`{var}` is shown twice", a))
                 if ch == "NONE" and k != "return":
                     viol.append((node, f"`{var}` is used although nothing is held", a))
-                nst = ("DISPOSED" if ch != "NONE" else "NONE", pa, fl, carry)
+                nst = ("DISPOSED" if ch != "NONE" else "NONE", pa, fl, carry, kind_)
             kp = disposal(a, parent)
             if kp:
                 if pa == "DISPOSED":
                     viol.append((node, "the list parent is shown twice", a))
-                nst = (nst[0], "DISPOSED", fl, carry)
+                nst = (nst[0], "DISPOSED", fl, carry, kind_)
             if isinstance(a, ast.Return):
                 # parent must have been shown unless the list had element rows (non-byte list, not empty)
                 if nst[1] == "HELD" and fl is not False:
@@ -356,7 +366,7 @@ def q2(run, project):
                     viol.append((node, f"`{var}` is neither shown nor handed back on this exit (event dropped)", a))
                 if carry is not None and not (a.value is not None and norm(a.value) == carry):
                     viol.append((node, f"the event moved to `{carry}` is not handed back on this exit (event dropped)", a))
-                work.append((cfg.exit, ("NONE", nst[1], fl, None)))
+                work.append((cfg.exit, ("NONE", nst[1], fl, None, kind_)))
                 continue
         for lab, s in node.succ:
             work.append((s, nst))
